@@ -112,7 +112,7 @@ def run(env, rep):
         "publish / play while not connected answer with an error packet and raise no event; R5 request and stream ids are the "
         "counter's value, the counter is stored +1 on the same path and nowhere else, accept / reject consume the request with "
         "remove() and an unknown id has no effect; R6 closeStream leaves the stream in a non-publishing, non-playing state, "
-        "deleteStream removes it, one event per path; R7 a ping request is answered with its own timestamp.  Not decided: the "
+        "deleteStream removes it, one event per path; outstanding_requests changes only by insert(fresh id) and by accept / reject removing the decided id; R8 a path of a public application call that refuses (returns a ServerSessionError built there) has no effect on the session or on any stream's state; R7 a ping request is answered with its own timestamp.  Not decided: the "
         "reachable-state claim over all histories as a whole.")
     pub_d = variant_index(prog, "sessions::server::active_stream::StreamState", "Publishing")
     play_d = variant_index(prog, "sessions::server::active_stream::StreamState", "Playing")
@@ -308,6 +308,54 @@ def run(env, rep):
                 why.append("a request is acted on without being removed from outstanding_requests (it could be accepted or rejected again)")
         rep.check("C09.R5", "%s|consumes-request" % name, okc and n >= 1, "the request is taken out of outstanding_requests before it is acted on (%d path(s))" % n,
                   "%s: %s" % (name, "; ".join(sorted(set(why))) or "no acting path"), bodies[name].span if name in bodies else None)
+    # a request that was surfaced stays available until the application decides it: the only changes to outstanding_requests are
+    # the insertion of a fresh id by a request handler and the removal of the decided id by accept / reject
+    READS = {"get", "get_mut", "contains_key", "len", "is_empty", "iter", "keys", "values", "entry"}
+    n_touch, bad_touch = 0, []
+    for name, paths in traces.items():
+        for p in paths:
+            for t in p:
+                if t[0] == "store" and t[1] == "outstanding_requests":
+                    bad_touch.append("%s replaces the whole map" % name)
+                if t[0] != "mut" or t[2] != "outstanding_requests":
+                    continue
+                op = t[1].split("::")[-1]
+                n_touch += 1
+                if op in READS:
+                    continue
+                if op == "insert" and re.match("^" + SELF % "next_request_number" + "$", t[3][0]):
+                    continue
+                if op == "remove" and name in ("accept_request", "reject_request") and re.match(r"^&?load\(request_id\)$", t[3][0]):
+                    continue
+                bad_touch.append("%s calls %s(%s) on outstanding_requests" % (name, op, ", ".join(x[:50] for x in t[3][:1])))
+    rep.check("C09.R5", "outstanding-requests|only-insert-fresh-and-remove-decided", n_touch >= 5 and not bad_touch,
+              "outstanding_requests changes only by inserting a fresh id and by accept / reject removing the id they decide (%d call sites on the replayed paths)" % n_touch,
+              "%s: a request the application was told about could no longer be accepted or rejected (or a forged one appears); the map may change only by insert(fresh id) in a "
+              "request handler and remove(request_id) in accept_request / reject_request" % "; ".join(sorted(set(bad_touch))[:3]), bodies["accept_request"].span if "accept_request" in bodies else None)
+    # ------------------------------------------------------------------ R8 a refused application call leaves the session as it was
+    n8 = 0
+    for name, paths in sorted(traces.items()):
+        b = bodies[name]
+        if not b.is_pub or b.arg_count < 1:
+            continue
+        for p in paths:
+            rets = [t for t in p if t[0] == "returns"]
+            text = rets[-1][1] if rets else ""
+            if not text.startswith("Err(ServerSessionError::"):
+                continue
+            n8 += 1
+            eff = ["%s := %s" % (t[1], t[2][:40]) for t in p if t[0] == "store" and not t[1].startswith("via:*call(")]
+            eff += ["%s.%s" % (t[2], t[1]) for t in p if t[0] == "mut" and t[1].split("::")[-1] not in READS and not t[2].startswith("local:") and
+                    not (t[2] == "outstanding_requests" and t[1] == "remove" and "InvalidRequestId" in text)]
+            pr = [t for t in p if t[0] == "probe"]
+            written = pr[-1][1][1] if pr and isinstance(pr[-1][1], tuple) and len(pr[-1][1]) > 1 else ()
+            if written:
+                eff.append("the state of a stream in active_streams is overwritten")
+            vname = text[len("Err(ServerSessionError::"):].split("(")[0].split(")")[0]
+            rep.check("C09.R8", "%s|refusal:%s|effect-free" % (name, vname), not eff, "%s: the path that refuses with %s changes nothing" % (name, vname),
+                      "%s refuses with %s but has already changed the session: %s (a refused call must not have side effects: a publishing stream would stop raising media and finished events)" % (
+                          b.pretty, vname, "; ".join(sorted(set(eff))[:3])), b.span)
+    rep.floor("C09.R8", "refusing paths of public application calls", n8, 4)
     # ------------------------------------------------------------------ R6 close / delete
     paths = traces.get("handle_command_close_stream", [])
     n6, bad6 = 0, []
